@@ -12,11 +12,13 @@ def replay : Backend (Nat × Nat) where
 def parseStmt (s : String) : Option (Stmt (Nat × Nat)) :=
   match s.splitOn ":" with
   | ["l", n] => some (.label n)
+  | ["f", n] => some (.func n)
   | ["e", a, b] => some (.emit (a.toNat?.getD 0, b.toNat?.getD 0))
   | ["o", a] => some (.org (a.toNat?.getD 0))
   | _ => none
 
-/-- `twopass <start address> <stmt>…` -> `ok name=p1/p2 …` -/
+/-- `twopass <start address> <stmt>…` -> `ok name=p1/p2 …` | `moved` | `err`;
+    stmt = `l:name` (`name:`) | `f:name` (`.func name`) | `e:size1:size2` | `o:address` -/
 def handle (args : List String) : String :=
   match args with
   | start :: rest =>
@@ -31,6 +33,43 @@ def handle (args : List String) : String :=
               | none => "moved"
               | some p2 =>
                   "ok " ++ " ".intercalate ((s1.syms.zip p2).map fun ((n, a1), (_, a2)) => n ++ "=" ++ hex a1 ++ "/" ++ hex a2)
+  | [] => "bad-op"
+
+def run {ι} (b : Backend ι) (prog : List (Stmt ι)) (a0 : Nat) : String :=
+  match pass1 b prog { addr := a0, syms := [], mem := fun _ => 0 } with
+  | none => "err"
+  | some s1 =>
+      match pass2 b s1.syms s1.mem prog a0 with
+      | none => "moved"
+      | some p2 =>
+          "ok " ++ " ".intercalate ((s1.syms.zip p2).map fun ((n, a1), (_, a2)) => n ++ "=" ++ hex a1 ++ "/" ++ hex a2)
+
+def hexBytes (s : String) : List Nat :=
+  let rec go : List Char → List Nat
+    | c1 :: c2 :: r => ((String.ofList [c1, c2]).toList.foldl (fun acc c =>
+        acc * 16 + (if c.isDigit then c.toNat - 48 else (c.toLower.toNat - 87))) 0) :: go r
+    | _ => []
+  go s.toList
+
+def parseStmt430 (s : String) : Option (Stmt Opd) :=
+  match s.splitOn ":" with
+  | ["l", n] => some (.label n)
+  | ["f", n] => some (.func n)
+  | ["c", v] => some (.emit (.const (v.toNat?.getD 0)))
+  | ["s", n] => some (.emit (.sym n))
+  | ["d", h] => some (.data (hexBytes h))
+  | ["o", a] => some (.org (a.toNat?.getD 0))
+  | _ => none
+
+/-- `twopass430 <start address> <stmt>…`: the MSP430 instance `msp430Imm` (constant generator vs extension
+    word behind the pass-1 flag byte, pad byte at an odd counter) computes the sizes itself;
+    stmt = `l:name` | `f:name` | `c:value` (`op.w #value, Rn`) | `s:name` (`op.w #name, Rn`) | `d:hexbytes` | `o:address` -/
+def handle430 (args : List String) : String :=
+  match args with
+  | start :: rest =>
+      match rest.mapM parseStmt430 with
+      | none => "bad-op"
+      | some prog => run msp430Imm prog (start.toNat?.getD 0)
   | [] => "bad-op"
 
 end Driver.TwoPass
